@@ -29,6 +29,7 @@ Some theory - partial schemas form a monoid with:
 
 from __future__ import annotations
 
+from copy import copy
 from functools import reduce
 from typing import (
     Any,
@@ -46,7 +47,7 @@ from typing import (
 )
 
 from pydantic import BaseModel, ValidationError, create_model, validate_model
-from pydantic.fields import FieldInfo
+from pydantic.fields import FieldInfo, Undefined
 from typing_extensions import Annotated
 
 from ..util import is_public_name
@@ -411,6 +412,13 @@ class PartialFactory:
             args = t.get_args(orig_type)
             th = args[0]
             fi = next(filter(lambda ann: isinstance(ann, FieldInfo), args[1:]), None)
+            if fi is not None:
+                # a partial has no defaults (missing = None) and collection size constraints
+                # can only be judged for the completed object (pydantic cannot even apply
+                # them to the forward references used in partials and refuses the model)
+                fi = copy(fi)
+                fi.default, fi.default_factory = Undefined, None
+                fi.min_items = fi.max_items = fi.unique_items = None
 
         pth = cls._partial_type(th)  # map the (unwrapped) type to optional
         return (pth, fi)
